@@ -24,43 +24,81 @@ def WellFormed (N : Nat) (g : Gate) : Prop :=
   (g.name.isCtl = true → ∃ c t, g.controls = [c] ∧ g.targets = [t] ∧ c ≠ t ∧ c < N ∧ t < N) ∧
   (g.name.isSwp = true → ∃ t0 t1, g.controls = [] ∧ g.targets = [t0, t1] ∧ t0 ≠ t1 ∧ t0 < N ∧ t1 < N)
 
+/-- the router of the variant `rz` (is `fixes/C13-3.patch` in place) rewrites this gate -/
+def HandledV (rz : Bool) (g : Gate) : Prop := Handled g ∨ (rz = true ∧ g.name.isOrd = true)
+
+instance (rz : Bool) (g : Gate) : Decidable (HandledV rz g) := by unfold HandledV; infer_instance
+
+theorem handledV_false (g : Gate) : HandledV false g ↔ Handled g := by simp [HandledV]
+
+/-- … and an ordered two-target gate (RZX), when it is routed, has two distinct in-range targets and no control -/
+def WellFormedV (rz : Bool) (N : Nat) (g : Gate) : Prop :=
+  WellFormed N g ∧
+  (rz = true → g.name.isOrd = true →
+    ∃ t0 t1, g.controls = [] ∧ g.targets = [t0, t1] ∧ t0 ≠ t1 ∧ t0 < N ∧ t1 < N)
+
+theorem wellFormedV_false (N : Nat) (g : Gate) : WellFormedV false N g ↔ WellFormed N g := by simp [WellFormedV]
+
+theorem isCtl_false_of_isOrd {n : GName} (h : n.isOrd = true) : n.isCtl = false := by
+  cases n <;> simp_all [GName.isOrd, GName.isCtl]
+
+theorem isSwp_false_of_isOrd {n : GName} (h : n.isOrd = true) : n.isSwp = false := by
+  cases n <;> simp_all [GName.isOrd, GName.isSwp]
+
+theorem isOrd_false_of_isSwp {n : GName} (h : n.isSwp = true) : n.isOrd = false := by
+  cases n <;> simp_all [GName.isOrd, GName.isSwp]
+
 theorem isCtl_false_of_isSwp {n : GName} (h : n.isSwp = true) : n.isCtl = false := by
   cases n <;> simp_all [GName.isSwp, GName.isCtl]
 
-theorem routeGateV_ctl {cc : Bool} {N : Nat} {setup : Setup} {g : Gate} {c t : Nat} (hnm : g.name.isCtl = true)
+theorem routeGateV_ctl {cc rz : Bool} {N : Nat} {setup : Setup} {g : Gate} {c t : Nat} (hnm : g.name.isCtl = true)
     (hC : g.controls = [c]) (hT : g.targets = [t]) :
-    routeGateV (.rep cc) N setup g = routeCtl (.rep cc) N setup g c t := by
+    routeGateV (.rep cc rz) N setup g = routeCtl (.rep cc rz) N setup g c t := by
   simp [routeGateV, hnm, hC, hT]
 
-theorem routeGateV_swp {cc : Bool} {N : Nat} {setup : Setup} {g : Gate} {t0 t1 : Nat} (hnm : g.name.isSwp = true)
+theorem routeGateV_swp {cc rz : Bool} {N : Nat} {setup : Setup} {g : Gate} {t0 t1 : Nat} (hnm : g.name.isSwp = true)
     (hT : g.targets = [t0, t1]) :
-    routeGateV (.rep cc) N setup g = .ok (routeSwp (.rep cc) N setup g t0 t1) := by
+    routeGateV (.rep cc rz) N setup g = .ok (routeSwp (.rep cc rz) N setup g t0 t1) := by
   simp [routeGateV, hnm, isCtl_false_of_isSwp hnm, hT]
 
+theorem routeGateV_ord {cc : Bool} {N : Nat} {setup : Setup} {g : Gate} {t0 t1 : Nat} (hnm : g.name.isOrd = true)
+    (hT : g.targets = [t0, t1]) :
+    routeGateV (.rep cc true) N setup g = .ok (routeSwp (.rep cc true) N setup g t0 t1) := by
+  simp [routeGateV, hnm, isCtl_false_of_isOrd hnm, hT, rep_rzFix]
+
 /-- pass-through of everything the router does not handle (measurements included) -/
-theorem routeGateV_other {cc : Bool} {N : Nat} {setup : Setup} {g : Gate} (h : ¬ Handled g) :
-    routeGateV (.rep cc) N setup g = .ok [g] := by
-  unfold Handled at h
+theorem routeGateV_other {cc rz : Bool} {N : Nat} {setup : Setup} {g : Gate} (h : ¬ HandledV rz g) :
+    routeGateV (.rep cc rz) N setup g = .ok [g] := by
+  unfold HandledV Handled at h
   have h1 : g.name.isCtl = false := by cases hc : g.name.isCtl <;> simp_all
   have h2 : g.name.isSwp = false := by cases hc : g.name.isSwp <;> simp_all
-  simp [routeGateV, h1, h2, rep_measFix]
+  have h3 : (rz && g.name.isOrd) = false := by
+    cases rz <;> cases hc : g.name.isOrd <;> simp_all
+  simp [routeGateV, h1, h2, h3, rep_measFix, rep_rzFix]
 
 /-- Per-gate specification in one statement (every `setup`, both values of `ccFix`). -/
-theorem routeGateV_handled_spec (cc : Bool) (N : Nat) (setup : Setup)
-    (g : Gate) (hw : WellFormed N g) (hh : Handled g) :
-    ∃ out S G a b, routeGateV (.rep cc) N setup g = .ok out ∧ g.qubits = [a, b] ∧ a ≠ b ∧ a < N ∧ b < N ∧
+theorem routeGateV_handled_spec (cc rz : Bool) (N : Nat) (setup : Setup)
+    (g : Gate) (hw : WellFormedV rz N g) (hh : HandledV rz g) :
+    ∃ out S G a b, routeGateV (.rep cc rz) N setup g = .ok out ∧ g.qubits = [a, b] ∧ a ≠ b ∧ a < N ∧ b < N ∧
       Routed setup.eff N a b out S G ∧ G.name = g.name ∧
       (G.qubits = [track S a, track S b] ∨ G.qubits = [track S b, track S a]) ∧
-      G.extra = (Variant.rep cc).cond g := by
-  rcases hh with hnm | hnm
-  · obtain ⟨c, t, hC, hT, hct, hc, ht⟩ := hw.1 hnm
-    obtain ⟨out, S, h1, h2⟩ := routeCtl_specV cc N setup g c t hnm hC hT hct hc ht
+      G.extra = (Variant.rep cc rz).cond g := by
+  rcases hh with (hnm | hnm) | ⟨hrz, hnm⟩
+  · obtain ⟨c, t, hC, hT, hct, hc, ht⟩ := hw.1.1 hnm
+    obtain ⟨out, S, h1, h2⟩ := routeCtl_specV cc rz N setup g c t hnm hC hT hct hc ht
     exact ⟨out, S, _, c, t, by rw [routeGateV_ctl hnm hC hT, h1], by simp [Gate.qubits, hC, hT], hct, hc, ht,
       h2, rfl, Or.inl rfl, rfl⟩
-  · obtain ⟨t0, t1, hC, hT, h01, h0, h1⟩ := hw.2 hnm
-    obtain ⟨S, p, q, h2, h3⟩ := routeSwp_specV cc N setup g t0 t1 h01 h0 h1
+  · obtain ⟨t0, t1, hC, hT, h01, h0, h1⟩ := hw.1.2 hnm
+    obtain ⟨S, p, q, h2, h3⟩ := routeSwp_specV cc rz N setup g t0 t1 h01 h0 h1
     refine ⟨_, S, _, t0, t1, routeGateV_swp hnm hT, by simp [Gate.qubits, hC, hT], h01, h0, h1, h2, rfl, ?_, rfl⟩
-    rcases h3 with ⟨rfl, rfl⟩ | ⟨rfl, rfl⟩
+    rcases h3 with ⟨rfl, rfl⟩ | ⟨-, rfl, rfl⟩
+    · exact Or.inl rfl
+    · exact Or.inr rfl
+  · subst hrz
+    obtain ⟨t0, t1, hC, hT, h01, h0, h1⟩ := hw.2 rfl hnm
+    obtain ⟨S, p, q, h2, h3⟩ := routeSwp_specV cc true N setup g t0 t1 h01 h0 h1
+    refine ⟨_, S, _, t0, t1, routeGateV_ord hnm hT, by simp [Gate.qubits, hC, hT], h01, h0, h1, h2, rfl, ?_, rfl⟩
+    rcases h3 with ⟨rfl, rfl⟩ | ⟨-, rfl, rfl⟩
     · exact Or.inl rfl
     · exact Or.inr rfl
 
@@ -147,14 +185,14 @@ theorem toChainV_concat (v : Variant) (N : Nat) (setup : Setup) (gs out : List G
         exact ⟨a, l.flatten, hp.1, (ih _).mpr ⟨l, hp.2, rfl⟩, by simp⟩
 
 /-- routing a circuit of well-formed gates never raises -/
-theorem toChainV_total (cc : Bool) (N : Nat) (setup : Setup)
-    (gs : List Gate) (hw : ∀ g ∈ gs, WellFormed N g) : ∃ out, toChainV (.rep cc) N setup gs = .ok out := by
+theorem toChainV_total (cc rz : Bool) (N : Nat) (setup : Setup)
+    (gs : List Gate) (hw : ∀ g ∈ gs, WellFormedV rz N g) : ∃ out, toChainV (.rep cc rz) N setup gs = .ok out := by
   induction gs with
   | nil => exact ⟨[], rfl⟩
   | cons g gs ih =>
     obtain ⟨b, hb⟩ := ih (fun g hg => hw g (List.mem_cons_of_mem _ hg))
-    by_cases hh : Handled g
-    · obtain ⟨a, _, _, _, _, ha, _⟩ := routeGateV_handled_spec cc N setup g (hw g (List.mem_cons_self ..)) hh
+    by_cases hh : HandledV rz g
+    · obtain ⟨a, _, _, _, _, ha, _⟩ := routeGateV_handled_spec cc rz N setup g (hw g (List.mem_cons_self ..)) hh
       exact ⟨a ++ b, (toChainV_cons ..).mpr ⟨a, b, ha, hb, rfl⟩⟩
     · exact ⟨[g] ++ b, (toChainV_cons ..).mpr ⟨[g], b, routeGateV_other hh, hb, rfl⟩⟩
 
@@ -174,20 +212,20 @@ theorem toChainV_mem {v : Variant} {N : Nat} {setup : Setup} {gs out : List Gate
       exact ⟨g', List.mem_cons_of_mem _ hg', a', ha', hm'⟩
 
 /-- everything emitted for a handled gate is itself a handled-name gate (a SWAP or the gate's name) -/
-theorem routeGateV_out_handled (cc : Bool) (N : Nat) (setup : Setup)
-    (g : Gate) (hw : WellFormed N g) (hh : Handled g) (a : List Gate) (ha : routeGateV (.rep cc) N setup g = .ok a) :
-    ∀ h ∈ a, Handled h := by
-  obtain ⟨out, S, G, x, y, h1, -, -, -, -, hr, hn, -⟩ := routeGateV_handled_spec cc N setup g hw hh
+theorem routeGateV_out_handled (cc rz : Bool) (N : Nat) (setup : Setup)
+    (g : Gate) (hw : WellFormedV rz N g) (hh : HandledV rz g) (a : List Gate) (ha : routeGateV (.rep cc rz) N setup g = .ok a) :
+    ∀ h ∈ a, HandledV rz h := by
+  obtain ⟨out, S, G, x, y, h1, -, -, -, -, hr, hn, -⟩ := routeGateV_handled_spec cc rz N setup g hw hh
   rw [h1] at ha; cases ha
   intro h hm
   rcases hr.mem hm with rfl | ⟨p, -, rfl⟩
-  · unfold Handled at hh ⊢; rw [hn]; exact hh
-  · exact Or.inr rfl
+  · unfold HandledV Handled at hh ⊢; rw [hn]; exact hh
+  · exact Or.inl (Or.inr rfl)
 
 /-- unhandled gates come out unchanged, in order, and nothing else unhandled is emitted -/
-theorem toChainV_unhandled_order (cc : Bool) (N : Nat) (setup : Setup)
-    (gs : List Gate) (hw : ∀ g ∈ gs, WellFormed N g) (out : List Gate) (ho : toChainV (.rep cc) N setup gs = .ok out) :
-    out.filter (fun h => !decide (Handled h)) = gs.filter (fun h => !decide (Handled h)) := by
+theorem toChainV_unhandled_order (cc rz : Bool) (N : Nat) (setup : Setup)
+    (gs : List Gate) (hw : ∀ g ∈ gs, WellFormedV rz N g) (out : List Gate) (ho : toChainV (.rep cc rz) N setup gs = .ok out) :
+    out.filter (fun h => !decide (HandledV rz h)) = gs.filter (fun h => !decide (HandledV rz h)) := by
   induction gs generalizing out with
   | nil =>
     have : out = [] := toChainV_nil ho
@@ -196,9 +234,9 @@ theorem toChainV_unhandled_order (cc : Bool) (N : Nat) (setup : Setup)
     obtain ⟨a, b, ha, hb, rfl⟩ := (toChainV_cons ..).mp ho
     have := ih (fun g hg => hw g (List.mem_cons_of_mem _ hg)) b hb
     rw [List.filter_append, this]
-    by_cases hh : Handled g
-    · have hall := routeGateV_out_handled cc N setup g (hw g (List.mem_cons_self ..)) hh a ha
-      have : a.filter (fun h => !decide (Handled h)) = [] := by
+    by_cases hh : HandledV rz g
+    · have hall := routeGateV_out_handled cc rz N setup g (hw g (List.mem_cons_self ..)) hh a ha
+      have : a.filter (fun h => !decide (HandledV rz h)) = [] := by
         rw [List.filter_eq_nil_iff]; intro h hm; simp [hall h hm]
       simp [this, hh]
     · rw [routeGateV_other hh] at ha; cases ha
@@ -211,16 +249,22 @@ theorem mkCtl_extra (nm : GName) (x : Nat) (b : Bool) (lo hi : Nat) : (mkCtl nm 
 
 theorem mkSwp_extra (nm : GName) (a x lo hi : Nat) : (mkSwp nm a x lo hi).extra = x := rfl
 
-/-- a handled gate without a classical condition is routed identically by both variants -/
-theorem routeGateV_cc_irrelevant (cc : Bool) (N : Nat) (setup : Setup) (g : Gate) (hx : g.extra = 0) :
-    routeGateV (.rep cc) N setup g = routeGateV .fixed N setup g := by
+theorem mkOrd_false (nm : GName) (a x : Nat) : mkOrd nm a x false = mkSwp nm a x := by
+  funext lo hi; rfl
+
+theorem mkOrd_extra (nm : GName) (a x : Nat) (fl : Bool) (lo hi : Nat) : (mkOrd nm a x fl lo hi).extra = x := by
+  cases fl <;> rfl
+
+/-- a gate without a classical condition is routed identically whether or not conditions are kept -/
+theorem routeGateV_cc_irrelevant (cc rz : Bool) (N : Nat) (setup : Setup) (g : Gate) (hx : g.extra = 0) :
+    routeGateV (.rep cc rz) N setup g = routeGateV (.rep false rz) N setup g := by
   cases cc
   · rfl
-  · have hc : (Variant.rep true).cond g = (Variant.rep false).cond g := by simp [rep_cond, hx]
-    have hre : ∀ e j h, h.extra = 0 → reidxCtl1 (.rep true) N e j h = reidxCtl1 (.rep false) N e j h := by
+  · have hc : (Variant.rep true rz).cond g = (Variant.rep false rz).cond g := by simp [rep_cond, hx]
+    have hre : ∀ e j h, h.extra = 0 → reidxCtl1 (.rep true rz) N e j h = reidxCtl1 (.rep false rz) N e j h := by
       intro e j h hh
       simp [reidxCtl1, Variant.cond, hh, lowIdx, Variant.rep]
-    have hrs : ∀ e j h, h.extra = 0 → reidxSwp1 (.rep true) N e j h = reidxSwp1 (.rep false) N e j h := by
+    have hrs : ∀ e j h, h.extra = 0 → reidxSwp1 (.rep true rz) N e j h = reidxSwp1 (.rep false rz) N e j h := by
       intro e j h hh
       simp [reidxSwp1, Variant.cond, hh, lowIdx, Variant.rep]
     have hfrom : ∀ (f f' : Nat → Gate → Gate) (l : List Gate) (j : Nat),
@@ -258,91 +302,114 @@ theorem routeGateV_cc_irrelevant (cc : Bool) (N : Nat) (setup : Setup) (g : Gate
               · rfl
               · exact ih _ hA hB h hm
         · simp at hm
-    unfold routeGateV
-    split
-    · -- CNOT / CSIGN
+    have hctl : ∀ c t, routeCtl (.rep true rz) N setup g c t = routeCtl (.rep false rz) N setup g c t := by
+      intro c t
+      simp only [routeCtl, hc, rep_roleFix]
       split
-      · rename_i t _ c _ _ _
-        simp only [routeCtl, hc, rep_roleFix, Variant.fixed]
-        split
-        · rfl
-        · split
-          · congr 1
-            apply hfrom
-            intro j h hm
-            refine hre _ j h (hloop _ _ _ _ _ _ ?_ ?_ h hm) <;>
-              (intro a b; rw [mkCtl_extra]; simp [rep_cond])
-          · rfl
       · rfl
-    · split
       · split
-        · rename_i t0 t1 _ _
-          simp only [routeSwp, hc, rep_argFix, Variant.fixed]
-          split
-          · rfl
-          · congr 1
-            apply hfrom
-            intro j h hm
-            refine hrs _ j h (hloop _ _ _ _ _ _ ?_ ?_ h hm) <;>
-              (intro a b; rw [mkSwp_extra]; simp [rep_cond])
+        · congr 1
+          apply hfrom
+          intro j h hm
+          refine hre _ j h (hloop _ _ _ _ _ _ ?_ ?_ h hm) <;>
+            (intro a b; rw [mkCtl_extra]; simp [rep_cond])
         · rfl
+    have hswp : ∀ t0 t1, routeSwp (.rep true rz) N setup g t0 t1 = routeSwp (.rep false rz) N setup g t0 t1 := by
+      intro t0 t1
+      simp only [routeSwp, hc, rep_argFix, rep_rzFix]
+      split
       · rfl
+      · apply hfrom
+        intro j h hm
+        refine hrs _ j h (hloop _ _ _ _ _ _ ?_ ?_ h hm) <;>
+          (intro a b; rw [mkOrd_extra]; simp [rep_cond])
+    unfold routeGateV
+    rcases hT : g.targets with _ | ⟨t0, _ | ⟨t1, l⟩⟩ <;> rcases hC : g.controls with _ | ⟨c, l'⟩ <;>
+      simp only [hctl, hswp, rep_rzFix, rep_measFix] <;> rfl
 
-theorem toChainV_cc_irrelevant (cc : Bool) (N : Nat) (setup : Setup) (gs : List Gate)
-    (hx : ∀ g ∈ gs, g.extra = 0) : toChainV (.rep cc) N setup gs = toChainV .fixed N setup gs := by
+/-- a gate that is not an ordered two-target gate (RZX) is routed identically whether or not such
+gates are routed -/
+theorem routeGateV_rz_irrelevant (cc rz : Bool) (N : Nat) (setup : Setup) (g : Gate) (ho : g.name.isOrd = false) :
+    routeGateV (.rep cc rz) N setup g = routeGateV (.rep cc false) N setup g := by
+  have hswp : ∀ t0 t1, routeSwp (.rep cc rz) N setup g t0 t1 = routeSwp (.rep cc false) N setup g t0 t1 := by
+    intro t0 t1
+    have hre : reidxSwp1 (.rep cc rz) N = reidxSwp1 (.rep cc false) N := by
+      funext e j h; rfl
+    simp only [routeSwp, rep_argFix, rep_rzFix, ho, Bool.and_false, Bool.false_and, rep_cond, hre]
+  have hctl : ∀ c t, routeCtl (.rep cc rz) N setup g c t = routeCtl (.rep cc false) N setup g c t := by
+    intro c t
+    have hre : reidxCtl1 (.rep cc rz) N = reidxCtl1 (.rep cc false) N := by
+      funext e j h; rfl
+    simp only [routeCtl, rep_roleFix, rep_cond, hre]
+  unfold routeGateV
+  rcases hT : g.targets with _ | ⟨t0, _ | ⟨t1, l⟩⟩ <;> rcases hC : g.controls with _ | ⟨c, l'⟩ <;>
+    simp only [hctl, hswp, rep_rzFix, rep_measFix, ho, Bool.and_false] <;> rfl
+
+theorem toChainV_cc_irrelevant (cc rz : Bool) (N : Nat) (setup : Setup) (gs : List Gate)
+    (hx : ∀ g ∈ gs, g.extra = 0) : toChainV (.rep cc rz) N setup gs = toChainV (.rep false rz) N setup gs := by
   induction gs with
   | nil => rfl
   | cons g gs ih =>
     simp only [toChainV]
-    rw [routeGateV_cc_irrelevant cc N setup g (hx g (List.mem_cons_self ..)),
+    rw [routeGateV_cc_irrelevant cc rz N setup g (hx g (List.mem_cons_self ..)),
       ih (fun g hg => hx g (List.mem_cons_of_mem _ hg))]
+
+theorem toChainV_rz_irrelevant (cc rz : Bool) (N : Nat) (setup : Setup) (gs : List Gate)
+    (ho : ∀ g ∈ gs, g.name.isOrd = false) : toChainV (.rep cc rz) N setup gs = toChainV (.rep cc false) N setup gs := by
+  induction gs with
+  | nil => rfl
+  | cons g gs ih =>
+    simp only [toChainV]
+    rw [routeGateV_rz_irrelevant cc rz N setup g (ho g (List.mem_cons_self ..)),
+      ih (fun g hg => ho g (List.mem_cons_of_mem _ hg))]
 
 /-! ## `adjacent_gates` is the open-chain router restricted to handled gates -/
 
-theorem adjGate_eq_routeGateV (cc : Bool) (N : Nat) (g : Gate) (hh : Handled g) :
-    adjGateV (.rep cc) g = routeGateV (.rep cc) N .linear g := by
+theorem adjGate_eq_routeGateV (cc rz : Bool) (N : Nat) (g : Gate) (hh : Handled g) :
+    adjGateV (.rep cc rz) g = routeGateV (.rep cc rz) N .linear g := by
   rcases hh with hnm | hnm
   · cases hT : g.targets <;> cases hC : g.controls <;>
       simp [adjGateV, routeGateV, hnm, hT, hC, routeCtl]
   · have := isCtl_false_of_isSwp hnm
     rcases hT : g.targets with _ | ⟨t0, _ | ⟨t1, l⟩⟩ <;>
-      simp [adjGateV, routeGateV, hnm, this, hT, routeSwp]
+      simp [adjGateV, routeGateV, hnm, this, hT, routeSwp, isOrd_false_of_isSwp hnm, mkOrd_false]
 
 theorem not_isMeas_of_handled {g : Gate} (hh : Handled g) : isMeas g = false := by
   unfold Handled at hh
   unfold isMeas
   cases hn : g.name <;> simp_all [GName.isCtl, GName.isSwp]
 
-theorem adjLoop_eq_toChainV (cc : Bool) (N : Nat) (gs : List Gate) (hh : ∀ g ∈ gs, Handled g) :
-    adjLoopV (.rep cc) gs = toChainV (.rep cc) N .linear gs := by
+theorem adjLoop_eq_toChainV (cc rz : Bool) (N : Nat) (gs : List Gate) (hh : ∀ g ∈ gs, Handled g) :
+    adjLoopV (.rep cc rz) gs = toChainV (.rep cc rz) N .linear gs := by
   induction gs with
   | nil => rfl
   | cons g gs ih =>
-    have h1 := adjGate_eq_routeGateV cc N g (hh g (List.mem_cons_self ..))
+    have h1 := adjGate_eq_routeGateV cc rz N g (hh g (List.mem_cons_self ..))
     have h2 := ih (fun g hg => hh g (List.mem_cons_of_mem _ hg))
     simp only [adjLoopV, toChainV] at h1 h2 ⊢
     rw [h1, h2]
-    cases routeGateV (Variant.rep cc) N Setup.linear g <;> cases toChainV (Variant.rep cc) N Setup.linear gs <;> rfl
+    cases routeGateV (Variant.rep cc rz) N Setup.linear g <;> cases toChainV (Variant.rep cc rz) N Setup.linear gs <;> rfl
 
 /-! ## instances for `routeGate` / `toChain` (`Variant.fixed`) and the two documented setups -/
 
 theorem routeGate_ctl {N : Nat} {setup : Setup} {g : Gate} {c t : Nat} (hnm : g.name.isCtl = true)
     (hC : g.controls = [c]) (hT : g.targets = [t]) :
-    routeGate N setup g = routeCtl .fixed N setup g c t := routeGateV_ctl (cc := false) hnm hC hT
+    routeGate N setup g = routeCtl .fixed N setup g c t := routeGateV_ctl (cc := false) (rz := false) hnm hC hT
 
 theorem routeGate_swp {N : Nat} {setup : Setup} {g : Gate} {t0 t1 : Nat} (hnm : g.name.isSwp = true)
     (hT : g.targets = [t0, t1]) :
-    routeGate N setup g = .ok (routeSwp .fixed N setup g t0 t1) := routeGateV_swp (cc := false) hnm hT
+    routeGate N setup g = .ok (routeSwp .fixed N setup g t0 t1) := routeGateV_swp (cc := false) (rz := false) hnm hT
 
 theorem routeGate_other {N : Nat} {setup : Setup} {g : Gate} (h : ¬ Handled g) :
-    routeGate N setup g = .ok [g] := routeGateV_other (cc := false) h
+    routeGate N setup g = .ok [g] := routeGateV_other (cc := false) (rz := false) (fun hv => h ((handledV_false g).mp hv))
 
 theorem routeGate_handled_spec (N : Nat) (setup : Setup) (hs : setup = .linear ∨ setup = .circular)
     (g : Gate) (hw : WellFormed N g) (hh : Handled g) :
     ∃ out S G a b, routeGate N setup g = .ok out ∧ g.qubits = [a, b] ∧ a ≠ b ∧ a < N ∧ b < N ∧
       Routed setup N a b out S G ∧ G.name = g.name ∧
       (G.qubits = [track S a, track S b] ∨ G.qubits = [track S b, track S a]) := by
-  obtain ⟨out, S, G, a, b, h1, h2, h3, h4, h5, h6, h7, h8, -⟩ := routeGateV_handled_spec false N setup g hw hh
+  obtain ⟨out, S, G, a, b, h1, h2, h3, h4, h5, h6, h7, h8, -⟩ := routeGateV_handled_spec false false N setup g
+    ((wellFormedV_false N g).mpr hw) ((handledV_false g).mpr hh)
   rw [Setup.eff_of_doc hs] at h6
   exact ⟨out, S, G, a, b, h1, h2, h3, h4, h5, h6, h7, h8⟩
 
@@ -364,7 +431,7 @@ theorem toChain_concat (N : Nat) (setup : Setup) (gs out : List Gate) :
 
 theorem toChain_total (N : Nat) (setup : Setup) (_hs : setup = .linear ∨ setup = .circular)
     (gs : List Gate) (hw : ∀ g ∈ gs, WellFormed N g) : ∃ out, toChain N setup gs = .ok out :=
-  toChainV_total false N setup gs hw
+  toChainV_total false false N setup gs (fun g hg => (wellFormedV_false N g).mpr (hw g hg))
 
 theorem toChain_mem {N : Nat} {setup : Setup} {gs out : List Gate} (ho : toChain N setup gs = .ok out)
     {h : Gate} (hm : h ∈ out) : ∃ g ∈ gs, ∃ a, routeGate N setup g = .ok a ∧ h ∈ a :=
@@ -372,17 +439,21 @@ theorem toChain_mem {N : Nat} {setup : Setup} {gs out : List Gate} (ho : toChain
 
 theorem routeGate_out_handled (N : Nat) (setup : Setup) (_hs : setup = .linear ∨ setup = .circular)
     (g : Gate) (hw : WellFormed N g) (hh : Handled g) (a : List Gate) (ha : routeGate N setup g = .ok a) :
-    ∀ h ∈ a, Handled h := routeGateV_out_handled false N setup g hw hh a ha
+    ∀ h ∈ a, Handled h := fun h hm => (handledV_false h).mp
+      (routeGateV_out_handled false false N setup g ((wellFormedV_false N g).mpr hw) ((handledV_false g).mpr hh) a ha h hm)
 
 theorem toChain_unhandled_order (N : Nat) (setup : Setup) (_hs : setup = .linear ∨ setup = .circular)
     (gs : List Gate) (hw : ∀ g ∈ gs, WellFormed N g) (out : List Gate) (ho : toChain N setup gs = .ok out) :
-    out.filter (fun h => !decide (Handled h)) = gs.filter (fun h => !decide (Handled h)) :=
-  toChainV_unhandled_order false N setup gs hw out ho
+    out.filter (fun h => !decide (Handled h)) = gs.filter (fun h => !decide (Handled h)) := by
+  have := toChainV_unhandled_order false false N setup gs (fun g hg => (wellFormedV_false N g).mpr (hw g hg)) out ho
+  have e : (fun h : Gate => !decide (HandledV false h)) = (fun h => !decide (Handled h)) := by
+    funext h; simp [handledV_false]
+  rwa [e] at this
 
 theorem adjGate_eq_routeGate (N : Nat) (g : Gate) (hh : Handled g) :
-    adjGateV .fixed g = routeGate N .linear g := adjGate_eq_routeGateV false N g hh
+    adjGateV .fixed g = routeGate N .linear g := adjGate_eq_routeGateV false false N g hh
 
 theorem adjLoop_eq_toChain (N : Nat) (gs : List Gate) (hh : ∀ g ∈ gs, Handled g) :
-    adjLoopV .fixed gs = toChain N .linear gs := adjLoop_eq_toChainV false N gs hh
+    adjLoopV .fixed gs = toChain N .linear gs := adjLoop_eq_toChainV false false N gs hh
 
 end QipVerif.Route
